@@ -73,7 +73,9 @@ CloseEffect ==
   /\ handle # NoHandle
   /\ handle' = NoHandle
   /\ UNCHANGED <<exists, file>>
-SameKindOrFree(p, n, v) == file[p][n] = NoVal \/ (file[p][n] # Unk /\ KindOf(file[p][n]) = KindOf(v))
+SameKindOrFree(p, n, v) == IF file[p][n] = NoVal THEN TRUE
+                           ELSE IF file[p][n] = Unk THEN FALSE
+                           ELSE KindOf(file[p][n]) = KindOf(v)
 \* getWriter through a READ handle must refuse; nothing changes
 WriteRefused(p, n, v) ==
   /\ handle = "READ"
